@@ -514,7 +514,8 @@ class TorchFacts:
                             if n.attr not in out:
                                 out.append(n.attr)
                         if isinstance(n, ast.Call) and isinstance(n.func, ast.Attribute) and \
-                                n.func.attr in ('register_buffer', 'register_parameter') and \
+                                n.func.attr in ('register_buffer', 'register_parameter',
+                                                '__setattr__') and \
                                 n.args and isinstance(n.args[0], ast.Constant):
                             if n.args[0].value not in out:
                                 out.append(n.args[0].value)
